@@ -213,6 +213,22 @@ def run_case(c, stats):
             call(m.accepts, w)
         call(m.minimize)
     call(fa.copy)
+    if len(c["trans"]) % 3 == 0 and kind != "dfa":
+        # what a conversion returns belongs to the caller: every result is edited (all states final, a loop on each
+        # start state) and the conversions are asked again - of this automaton and of a fresh equal one
+        for conv in ("minimize", "to_deterministic", "remove_epsilon_transitions", "copy"):
+            ok, r = call(getattr(fa, conv))
+            if not ok:
+                continue
+            for s_ in list(r.states):
+                call(r.add_final_state, s_)
+            for s_ in list(r.start_states):
+                call(r.add_transition, s_, words[1][0] if len(words) > 1 and words[1] else "a", s_)
+            ok2, r2 = call(getattr(fa, conv))
+            if ok2:
+                for w in words[:6]:
+                    call(r2.accepts, w)
+            call(getattr(gfa.build(c), conv))
     if c.get("edits"):
         # the automaton is edited through the public mutators and queried again (same object)
         gfa.apply_edits(fa, c, on_refused=lambda e, exc: core.report(
